@@ -1144,16 +1144,20 @@ func (pid *PID) Ask(ctx context.Context, to *PID, message any, timeout time.Dura
 	receiveContext.build(ctx, pid, to, message, false)
 	responseCh := receiveContext.response
 
+	verifhook.At("ask.enq", receiveContext, 0, 0)
 	to.doReceive(receiveContext)
 	timer := timers.Get(timeout)
 
+	verifhook.At("ask.select", receiveContext, 0, 0)
 	select {
 	case result := <-responseCh:
+		verifhook.At("ask.woke", receiveContext, 1, 0)
 		timers.Put(timer)
 		receiveContext.responseClosed.Store(true)
 		putResponseChannel(responseCh)
 		return result, nil
 	case <-ctx.Done():
+		verifhook.At("ask.woke", receiveContext, 2, 0)
 		err = errors.Join(ctx.Err(), gerrors.ErrRequestTimeout)
 		pid.handleReceivedErrorWithMessage(pid, message, err)
 		timers.Put(timer)
@@ -1161,6 +1165,7 @@ func (pid *PID) Ask(ctx context.Context, to *PID, message any, timeout time.Dura
 		putResponseChannel(responseCh)
 		return nil, err
 	case <-timer.C:
+		verifhook.At("ask.woke", receiveContext, 3, 0)
 		err = gerrors.ErrRequestTimeout
 		pid.handleReceivedErrorWithMessage(pid, message, err)
 		timers.Put(timer)
